@@ -2,6 +2,9 @@ pub mod c01;
 pub mod c01_scaling;
 pub mod c02;
 pub mod c03;
+pub mod c05;
+pub mod c06;
+pub mod c11;
 pub mod c12;
 pub mod c13;
 pub mod c14;
@@ -20,6 +23,9 @@ pub fn dispatch_run(id: &str, run: &mut Run) -> bool {
         "C01" => c01::run(run),
         "C02" => c02::run(run),
         "C03" => c03::run(run),
+        "C05" => c05::run(run),
+        "C06" => c06::run(run),
+        "C11" => c11::run(run),
         "C12" => c12::run(run),
         "C13" => c13::run(run),
         "C18" => c18::run(run),
@@ -37,6 +43,9 @@ pub fn dispatch_replay(id: &str, check: &str, case: Value, run: &mut Run) -> Res
         "C01" => c01::replay(check, case, run),
         "C02" => c02::replay(check, case, run),
         "C03" => c03::replay(check, case, run),
+        "C05" => c05::replay(check, case, run),
+        "C06" => c06::replay(check, case, run),
+        "C11" => c11::replay(check, case, run),
         "C12" => c12::replay(check, case, run),
         "C13" => c13::replay(check, case, run),
         "C18" => c18::replay(check, case, run),
@@ -89,6 +98,14 @@ pub fn survey(id: &str, n: usize, seed: u64) -> i32 {
 }
 
 pub fn worker_main(args: &[String]) -> i32 {
+    if args.len() >= 3 && args[0] == "c05-batch" {
+        print!("{}", c05::process_batch(args[1].parse().unwrap_or(0), args[2].parse().unwrap_or(10)));
+        return 0;
+    }
+    if !args.is_empty() && args[0] == "c06-list" {
+        c06::list_flagged_entries();
+        return 0;
+    }
     if args.len() >= 3 && args[0] == "survey" {
         return survey(&args[1], args[2].parse().unwrap_or(1000), args.get(3).and_then(|s| s.parse().ok()).unwrap_or(0));
     }
